@@ -19,6 +19,16 @@ pub fn set_vcap(n: usize) {
 
 #[must_use]
 pub fn vcap() -> usize {
+    // native runs only (model validation with graaf's own tests): VSTD_VCAP overrides
+    #[cfg(not(kani))]
+    {
+        static ENV: ::std::sync::OnceLock<Option<usize>> = ::std::sync::OnceLock::new();
+
+        if let Some(v) = ENV.get_or_init(|| ::std::env::var("VSTD_VCAP").ok().and_then(|s| s.parse().ok())) {
+            return *v;
+        }
+    }
+
     unsafe { VCAP }
 }
 
